@@ -232,6 +232,8 @@ LATER_BASES = [
     ("former-view:slice", lambda: (mg.tensor(np.arange(24.0).reshape(6, 4) + 1))[::2]),
 ]
 LATER_CONSUMERS = [
+    ("terminal:default-seed", None),   # b.backward() itself: the seed is made by backward(), not by an operation
+    ("terminal:scalar-seed", 2.0),
     ("square", lambda b: (b * b).sum()),
     ("scaled", lambda b: (b * 2.0).sum()),
     ("through-view", lambda b: (b[0] * 3.0).sum() + (b * b).sum()),
@@ -256,10 +258,23 @@ def later_view_case(args):
     keep = []
     b = mkb()
     keep.append(b.base)
-    L = cons(b)
-    L.backward()
-    v = chain(b)
+    pre = chain(b) if (bi + ci + vi) % 2 else None   # every other case: the same chain also exists before backward()
+    if cons is None or isinstance(cons, float):
+        if b.creator is None and b.base is not None:
+            b = +b if False else b  # (a former view is used as it is: backward() on it seeds its own gradient)
+        if cons is None:
+            b.backward()
+        else:
+            b.backward(cons)
+    else:
+        L = cons(b)
+        L.backward()
     fails = []
+    # the chain made before backward() is examined before anything else happens (taking another view of a former view
+    # afterwards disconnects that view from its base: a new epoch for everything derived through it)
+    if pre is not None and pre.base is not None:
+        fails += [(c, "(view made before backward) " + m) for c, m in check_views({0: pre.base, 1: pre})]
+    v = chain(b)
     if v.base is not None and v.size and not np.shares_memory(v.data, v.base.data):
         fails.append(("view-without-shared-data", "a tensor with a base does not share memory with it"))
     owner = v.base if v.base is not None else None
@@ -268,6 +283,22 @@ def later_view_case(args):
         # the gradient the (possibly just disconnected) base keeps is the one it reported before the view was taken
         if owner is b and b.grad is None:
             fails.append(("base-grad-lost", "the base lost its gradient when a view of it was taken"))
+    # ... and the base's shape re-assigned with tracking suspended (`.shape =` inside no_autodiff reshapes the stored
+    # gradient): the views keep reporting theirs
+    if not fails and owner is b and v.base is b and b.ndim == 2 and b.data.flags.c_contiguous:
+        got = None if v.grad is None else np.array(v.grad)
+        with mg.no_autodiff:
+            try:
+                b.shape = (b.shape[1], b.shape[0])
+            except Exception:  # noqa: BLE001
+                got = None
+        if got is not None:
+            g2 = v.grad
+            if g2 is None or not np.array_equal(g2, got):
+                fails.append(("view-grad-lost-on-shape-setter", "after `b.shape = …` inside no_autodiff a view of b no longer reports the "
+                              f"gradient it reported before ({None if g2 is None else np.asarray(g2).tolist()} instead of {got.tolist()})"))
+            if b.grad is None or b.grad.shape != b.shape:
+                fails.append(("base-grad-shape", "after `b.shape = …` inside no_autodiff b.grad does not have b's shape"))
     return {"base": bname, "consumer": cname, "chain": vname, "fails": fails, "args": list(args),
             "is_view": v.base is not None}
 
@@ -339,7 +370,7 @@ def run(ctx: Ctx) -> Outcome:
     out.rule = ("(a) random single-epoch programs with many views, one backward: for every (view, base) pair value, availability "
                 "and memory sharing of the gradients, and no sharing between gradients of unrelated tensors; (b) 17 view chains x "
                 "every ordering of 1..3 of 9 consumers (so that each contribution arrives first) x 2 seed kinds; (c) the model's "
-                "reshape view-or-copy rule vs NumPy on random strided windows; (d) 140 histories in which the view chain is taken "
+                "reshape view-or-copy rule vs NumPy on random strided windows; (d) 210 histories in which the view chain is taken "
                 "*after* backward() from a C-/Fortran-ordered owner or from a former view (transposed, axis-swapped, strided) that "
                 "becomes a base by being viewed")
     seen = engcheck.report(out, results, "C06", oracle)
